@@ -77,6 +77,8 @@ def _hook(kind, idx, script):
             raise NotImplementedError
         if out == 'kbd':
             raise KeyboardInterrupt
+        if out == 'sysexit':
+            raise SystemExit(0)
     return hook
 
 
